@@ -76,11 +76,20 @@ def convert_eems2_commands(command_nodes):
 
     for node in command_nodes:
         try:
+            result_name = (
+                node.result_name
+                or find_argument(node, "NewFieldName")
+                or find_argument(node, "InFieldName")
+            )
+            if isinstance(result_name, (list, dict)):
+                raise ProgramError(
+                    lineno=node.lineno,
+                    message="Cannot convert from EEMS 2.0: The field name of a command must be a single name, not a list.",
+                )
+
             converted.append(
                 CommandNode(
-                    node.result_name
-                    or find_argument(node, "NewFieldName")
-                    or find_argument(node, "InFieldName"),
+                    result_name,
                     EEMS_COMMANDS.get(node.command, node.command),
                     [
                         arg
